@@ -1036,21 +1036,24 @@ Proof.
   set (dx := k_lin_comb (cv_of (backsub (g_H (n_ws ra)) (rev (seq 0 (n_j ra))) (g_s (n_ws ra))) (g_z (n_ws ra)) (n_j ra)) s0 (g_r (n_ws ra))).
   assert (Eleb : Nat.leb (Mt - length (cb_buf outer)) 0 = false) by (apply Nat.leb_gt; unfold Mt; lia).
   rewrite Eleb.
-  destruct (p_left prm).
-  - destruct (Nat.ltb 0 K && negb (is_zero (norm_b dx))) eqn:Est; cbn [y_x y_it y_nouter y_oof y_ws];
-      repeat split; auto; unfold LInv; cbn [l_outer l_data].
-    + repeat split; auto.
-      * apply cb_push_wf; [|exact Hwf]. apply Bool.andb_true_iff in Est as [Est _]. apply Nat.ltb_lt in Est. exact Est.
-      * intros s Hs. apply cb_push_in in Hs as [->|Hs]; [rewrite !upd_eq; reflexivity|].
+  assert (Fin : forall (xa : vec) (ga gb : gm_ws),
+    let ca := if Nat.ltb 0 K && negb (is_zero (norm_b dx))
+              then mkLgCyc xa (mkLgWs ga (upd (l_data wa) (no mod K) (k_axpby (sinv (norm_b dx)) dx s0 (l_data wa (no mod K)))) (cb_push K outer (no mod K))) (n_it ra) (SS no) (n_oof ra)
+              else mkLgCyc xa (mkLgWs ga (l_data wa) outer) (n_it ra) no (n_oof ra) in
+    let cb := if Nat.ltb 0 K && negb (is_zero (norm_b dx))
+              then mkLgCyc xa (mkLgWs gb (upd (l_data wb) (no mod K) (k_axpby (sinv (norm_b dx)) dx s0 (l_data wb (no mod K)))) (cb_push K outer (no mod K))) (n_it rb) (SS no) (n_oof rb)
+              else mkLgCyc xa (mkLgWs gb (l_data wb) outer) (n_it rb) no (n_oof rb) in
+    y_x ca = y_x cb /\ y_it ca = y_it cb /\ y_nouter ca = y_nouter cb /\ y_oof ca = y_oof cb /\ LInv K (y_ws ca) (y_ws cb)).
+  { intros xa ga gb. rewrite !(k_axpby_zero Hz).
+    destruct (Nat.ltb 0 K && negb (is_zero (norm_b dx))) eqn:Est; cbn [y_x y_it y_nouter y_oof y_ws].
+    - split; [reflexivity|]. split; [exact Ei|]. split; [reflexivity|]. split; [exact Eoo|].
+      unfold LInv; cbn [l_outer l_data]. split; [reflexivity|]. split.
+      + apply cb_push_wf; [|exact Hwf]. apply Bool.andb_true_iff in Est as [Est _]. apply Nat.ltb_lt in Est. exact Est.
+      + intros s Hs. apply cb_push_in in Hs as [->|Hs]; [rewrite !upd_eq; reflexivity|].
         apply upd_same. apply Hd. exact Hs.
-    + repeat split; auto.
-  - destruct (Nat.ltb 0 K && negb (is_zero (norm_b dx))) eqn:Est; cbn [y_x y_it y_nouter y_oof y_ws];
-      repeat split; auto; unfold LInv; cbn [l_outer l_data].
-    + repeat split; auto.
-      * apply cb_push_wf; [|exact Hwf]. apply Bool.andb_true_iff in Est as [Est _]. apply Nat.ltb_lt in Est. exact Est.
-      * intros s Hs. apply cb_push_in in Hs as [->|Hs]; [rewrite !upd_eq; reflexivity|].
-        apply upd_same. apply Hd. exact Hs.
-    + repeat split; auto.
+    - split; [reflexivity|]. split; [exact Ei|]. split; [reflexivity|]. split; [exact Eoo|].
+      unfold LInv; cbn [l_outer l_data]. split; [reflexivity|]. split; [exact Hwf | exact Hd]. }
+  destruct (p_left prm); apply Fin.
 Qed.
 
 Opaque lg_cycle.
@@ -1085,7 +1088,7 @@ Proof.
   intros Ha HM. unfold lgmres. rewrite Ha.
   destruct (k_prologue norm_b prm f) as [nr|nr]; [reflexivity|].
   match goal with |- fst (let '(_, _) := lg_outer A P prm f ?e nr ?fu x0 ?sa 0 0 false in _) = fst (let '(_, _) := lg_outer _ _ _ _ _ _ _ _ ?sb 0 0 false in _) =>
-    assert (HI : LInv (p_K prm) sa sb) by (unfold LInv; cbn [l_outer l_data]; repeat split; [apply wf_cb_clear | intros s []]);
+    assert (HI : LInv (p_K prm) sa sb) by (unfold LInv; cbn [l_outer l_data]; split; [reflexivity | split; [apply wf_cb_clear | intros s Hs; destruct Hs]]);
     pose proof (lg_outer_agree Hz A P prm f e nr fu HM x0 sa sb 0 0 false HI) as E;
     destruct (lg_outer A P prm f e nr fu x0 sa 0 0 false) as [r1 w1], (lg_outer A P prm f e nr fu x0 sb 0 0 false) as [r2 w2] end.
   simpl in E. subst. reflexivity.
